@@ -238,10 +238,65 @@ class C17(Spec):
                 name = obs[1] if target == "kotlin" else obs
                 goals.append(f"match observe {f} {c} {a} {cstr(target)} with Some o => opt_eqb String.eqb (o_lib o) (Some {cstr(name)}) | None => false end")
             shutil.rmtree(out, ignore_errors=True)
+        # ---- placement invariance: the same effective value gives the same output tree whichever source carried it, and a
+        # higher-precedence source wins over a lower one, for settings that change what a backend emits
+        import hashlib
+        def tree(path):
+            t = {}
+            for root, _, files in os.walk(path):
+                for fn in files:
+                    fp = os.path.join(root, fn)
+                    t[os.path.relpath(fp, path)] = hashlib.sha1(open(fp, "rb").read()).hexdigest()
+            return t
+        demo_src = ("#[diplomat::bridge]\nmod ffi {\n    #[diplomat::opaque]\n    pub struct O(pub i32);\n    impl O {\n"
+                    "        #[diplomat::attr(auto, constructor)]\n        pub fn new(v: i32) -> Box<O> { Box::new(O(v)) }\n"
+                    "        #[diplomat::demo(default_constructor)]\n        pub fn get(&self, w: &mut diplomat_runtime::DiplomatWrite) { use core::fmt::Write; let _ = write!(w, \"{}\", self.0); }\n    }\n}\n")
+        settings = [("demo_gen", "demo_gen", "module_name", "mymod", "othermod"), ("demo_gen", "demo_gen", "relative_js_path", "../lib", "../other"),
+                    ("js", "js", "abi", "spec", "legacy"), ("kotlin", "kotlin", "domain", "a.org", "b.org"), ("nanobind", None, "lib_name", "alib", "blib")]
+        if ctx.quick():
+            settings = settings[:3] + [rng.choice(settings[3:])]
+        def run_placed(tag, target, placed):
+            # placed: {"file": (scope, key, value) | None, "cli": .., "attr": ..}
+            base_file = [(None, "lib_name", "baselib")] + ([("kotlin", "domain", "base.org")] if target == "kotlin" and not any(v and v[1] == "domain" for v in placed.values()) else [])
+            pf = placed.get("file")
+            fl = [w for w in base_file if not (pf and pf[0] == w[0] and pf[1] == w[1])] + ([pf] if pf else [])
+            toml = "".join(f"{k} = {lit(v)}\n" for sc, k, v in fl if sc is None)
+            for sc in sorted(set(w[0] for w in fl if w[0])):
+                toml += f"[{sc}]\n" + "".join(f"{k} = {lit(v)}\n" for sc2, k, v in fl if sc2 == sc)
+            attrs = ""
+            if placed.get("attr"):
+                sc, k, v = placed["attr"]
+                attrs = f"#[diplomat::config({(sc + '.') if sc else ''}{k} = {lit(v)})]\n"
+            entry = os.path.join(d, f"pl_{tag}.rs"); open(entry, "w").write(attrs + demo_src)
+            cf = os.path.join(d, f"pl_{tag}.toml"); open(cf, "w").write(toml)
+            cli = []
+            if placed.get("cli"):
+                sc, k, v = placed["cli"]
+                cli = [f"{(sc + '.') if sc else ''}{k}={v}"]
+            out = os.path.join(d, f"pl_out_{tag}")
+            p = e2e.run_tool(target, entry, out, config=cli, config_file=cf)
+            t = tree(out) if p.returncode == 0 else {"__failed__": p.stderr[-300:]}
+            shutil.rmtree(out, ignore_errors=True)
+            return t, {"lib_rs": attrs + demo_src, "config_toml": toml, "cli": cli}
+        nplace = 0
+        for target, sc, key, v1, v2 in settings:
+            ref, _ = run_placed("ref", target, {"cli": (sc, key, v1)})
+            combos = [("file", {"file": (sc, key, v1)}), ("attr", {"attr": (sc, key, v1)}),
+                      ("file<cli", {"file": (sc, key, v2), "cli": (sc, key, v1)}), ("cli<attr", {"cli": (sc, key, v2), "attr": (sc, key, v1)}),
+                      ("file<attr", {"file": (sc, key, v2), "attr": (sc, key, v1)}), ("file<cli<attr", {"file": (sc, key, v2), "cli": (sc, key, v2), "attr": (sc, key, v1)})]
+            for name, placed in combos:
+                got, info = run_placed(name.replace("<", "_"), target, placed)
+                nplace += 1; ran += 1
+                if got != ref and viol < 3:
+                    viol += 1
+                    diff = sorted(set(got) ^ set(ref))[:6] + sorted(k for k in set(got) & set(ref) if got[k] != ref[k])[:6]
+                    ctx.violation(f"e2e:placement:{target}:{key}", dict(info, target=target, what=
+                        f"{(sc + '.') if sc else ''}{key} = {v1!r} given as [{name}] produces a different {target} output than the same value given with --config alone "
+                        f"(differing files: {diff})"), True)
         fails = run_shards(self.prop, self.header, goals) if goals else []
         if fails and viol == 0:
             ctx.violation("e2e:corr", {"broken": "end-to-end correspondence goal: " + goals[fails[0]][:400]}, False)
-        return {"obligations": len(goals), "discharged": len(goals) - len(fails), "e2e_cli_runs": ran}
+        return {"obligations": len(goals), "discharged": len(goals) - len(fails), "e2e_cli_runs": ran, "placement_runs": nplace}
 
 
 def check(ctx, replay=None):
